@@ -169,6 +169,7 @@ type scenario struct {
 
 type retrObs struct {
 	Hit        bool              `json:"hit"`
+	Hung       bool              `json:"hung,omitempty"`
 	Disk       map[string]string `json:"disk"` // path -> description, for the report
 	diskCoq    []string
 	Complete   bool   `json:"complete"` // every declared output is back, exactly
@@ -418,7 +419,13 @@ func (w *worker) retrieve(sc *scenario, r retr, key, gz []byte) *retrObs {
 	}
 	must(os.RemoveAll(w.outDir))
 	must(os.MkdirAll(w.outDir, 0o755)) // the output directory itself exists, and is empty
-	ob.Hit = c.Retrieve(w.target, key, nil)
+	done := make(chan bool, 1)
+	go func() { done <- c.Retrieve(w.target, key, nil) }()
+	select {
+	case ob.Hit = <-done:
+	case <-time.After(45 * time.Second):
+		ob.Hung = true // neither a hit nor a miss: Retrieve does not return
+	}
 	ob.Complete = allHealthy(sc.Files)
 	for _, f := range sc.Files {
 		f.each(func(t *tnode) {
@@ -641,9 +648,11 @@ func main() {
 		must(os.Chdir(root))
 
 		var scs []*scenario
-		var one scenario
-		if c.ReadReplay(&one) {
-			scs = []*scenario{&one}
+		var one struct {
+			Scenario *scenario `json:"scenario"`
+		}
+		if c.ReadReplay(&one) && one.Scenario != nil {
+			scs = []*scenario{one.Scenario}
 		} else {
 			scs = generate(c)
 		}
@@ -676,6 +685,20 @@ func main() {
 			readable := false
 			for _, f := range sc.Files {
 				f.each(func(t *tnode) { readable = readable || t.Kind == "file" || t.Kind == "link" })
+			}
+			// whatever a store with a read fault leaves must not go on past the fault: its members are
+			// a prefix of the members in front of the first unreadable one
+			c.Oracle()
+			if !allHealthy(sc.Files) {
+				front := membersBeforeFault(sc.Files, w.outDir)
+				bad := len(obs[i].Members) > len(front)
+				for k := 0; !bad && k < len(obs[i].Members); k++ {
+					bad = obs[i].Members[k] != front[k]
+				}
+				if bad {
+					c.Fail("store-went-on-after-read-fault", fmt.Sprintf("%s cache: the stored entry holds %v, the members in front of the unreadable output are %v",
+						sc.Cache, obs[i].Members, front), map[string]any{"scenario": sc, "observed": obs[i]})
+				}
 			}
 			c.Oracle()
 			if obs[i].Stored && sc.Cache == "http" && (sc.PutFault != "" || !allHealthy(sc.Files)) {
@@ -721,6 +744,10 @@ func main() {
 						sc.Cache, ro.Incomplete+unreadableNote(sc), storeFaultName(sc), retrFaultName(r)), js)
 				}
 				c.Oracle()
+				if ro.Hung {
+					c.Fail("retrieve-does-not-return", "Retrieve neither reports a hit nor a miss within 45 s ("+retrFaultName(r)+")", js)
+				}
+				c.Oracle()
 				if ro.Hit && sc.Cache == "cmd" && r.RetrExit != 0 {
 					c.Fail("cmd-hit-despite-failed-retrieve-command", "the retrieve command exited non-zero and Retrieve reports a hit", js)
 				}
@@ -731,6 +758,21 @@ func main() {
 			}
 		}
 	})
+}
+
+func membersBeforeFault(files []*tnode, outDir string) []string {
+	out, stop := []string{}, false
+	for _, f := range files {
+		f.each(func(t *tnode) {
+			if t.Kind == "sock" || t.Kind == "missing" {
+				stop = true
+			}
+			if !stop {
+				out = append(out, filepath.Join(outDir, t.Name))
+			}
+		})
+	}
+	return out
 }
 
 func unreadableNote(sc *scenario) string {
